@@ -220,7 +220,8 @@ LEVEL = "exploration"
 RULE = ("behaviours = abstract values enumerated by TLC from spec/ApiConvGen.tla: API-shaped records (path "
         "attributes of every type of pkg/apiutil/attribute.go, NLRI of every family, capabilities, API paths, defined "
         "sets, statements with each condition / action, neighbour configurations), one field at a time around absent / "
-        "zero / max of a base value, list orders, 2-/4-octet AS kinds and next-hop forms as native-only hints, plus "
+        "zero / max of a base value, list orders, 2-/4-octet AS kinds and next-hop forms as native-only hints, FlowSpec operand "
+        "lengths (1/2/4/8 octets for values that fit in fewer) x and / end / comparison / bitmask bits, prefixes with host bits, plus "
         "random combinations (-simulate) and an example catalogue (BGP-LS, SR policy sub-TLVs, values as re-parsed by "
         "the codec). Each is concretised twice without the converters (protobuf library for the API value, the "
         "library's constructors for the native value), run through the REAL converters in both directions and the "
